@@ -1,5 +1,5 @@
 """C13 -- no hook response, however malformed, can crash metacontroller or cause writes."""
-from props import sync_level, COMPOSITE, DECORATOR
+from props import sync_level, all_families, COMPOSITE, DECORATOR
 import fam_shapes
 
 PLAN = {
@@ -23,4 +23,5 @@ MANIFEST = dict(
 
 
 def run(scr, tier, replay_file):
-    return sync_level(scr, tier, "C13", "C13_", PLAN, replay_file)
+    # a worker must not panic in ANY world: slices of every other family run under C13_NoPanic / C13_RejectedNoWrites too
+    return sync_level(scr, tier, "C13", "C13_", all_families(PLAN), replay_file)
